@@ -19,6 +19,45 @@ CLAIMED = {
         design_ref="5 C09, 2.2"),
 }
 
+
+CONC_NOTE = ("Trusted: TLC, the import-substitution instrumenter, the cooperative scheduler (one virtual thread runs at a time; preemption only before "
+             "sync/atomic calls, Mutex/Cond operations, runtime.Gosched and harness user functions - behaviours needing a switch between two plain accesses "
+             "exist only under a data race, which is C14's subject), sequential consistency of sync/atomic. Layout pins replace the hash function in the scratch copy only. "
+             "Explored: the listed scenario families x dfs(preemption bound)/PCT/random schedules; every distinct history is decided by TLC (linearization search).")
+
+CLAIMED.update({
+    "C02": dict(technique="TLA+ CacheLin (linearizability w.r.t. CacheSem with DERemove/eviction-queue steps); real-code histories from a deterministic cooperative scheduler (dfs preemption-bounded, PCT) validated by TLC trace validation with searched linearization points",
+                text="model_checking: every distinct history the scheduler extracts from the real Cache/CacheOf over the scenario families (DeleteExpired/janitor-pass vs writers, lazy delete vs writers, read-modify-write racers on live/expired/absent keys, removers, Clear, callback swaps) is checked by TLC against the linearizable TTL-map machine; a final quiescent observation compares physical content.",
+                design_ref="5 C02, 2.3, 3.3, 3.7", note=CONC_NOTE),
+    "C03": dict(technique="TLA+ MapLin (linearizability w.r.t. MapSem); scheduler-enumerated interleavings at sync/atomic granularity with pinned bucket layout and real grow/shrink thresholds; TLC trace validation with searched linearization points",
+                text="model_checking: histories of the real Map under dfs(2/3)-bounded and PCT schedules over families F1-F15 (slot reuse, update, append, grow, shrink, Clear, two resizers, delete||insert, racers, Range) are each decided by TLC against the linearizable map machine, including quiescent Load/Size/Range.",
+                design_ref="5 C03/C04, 2.3, 3.3", note=CONC_NOTE),
+    "C04": dict(technique="as C03 on MapOf for key types string/int/struct with a pinned (colliding) hasher: same bucket and same 7-bit h2",
+                text="model_checking: as C03 for MapOf[string,any], MapOf[int,int], MapOf[struct,string]; the pinned hasher forces bucket and h2 collisions for every table generation.",
+                design_ref="5 C03/C04", note=CONC_NOTE),
+    "C05": dict(technique="MapLin/CacheLin result + user-function-count clauses (aspects fn, view) on scheduler histories with k racers; CacheSem sequential fn-count clause; exhaustive TTLCache model",
+                text="model_checking: k=2..3 (thorough 8) racers of LoadOrStore/LoadOrCompute/GetOrSet/GetOrCompute/Compute on absent, live and expired-uncleaned keys with bucket-mate writers and a grow between attempt and retry; user functions count their invocations and yield inside; every history is decided by TLC (exactly one loaded=false, same value for all, fn count = what the linearization dictates).",
+                design_ref="5 C05", note=CONC_NOTE),
+    "C06": dict(technique="CacheLin eviction queue (each instance at most once, only by the call that removed it, callback in force) + CacheSem sequential ledger clause (aspect evict); scheduler histories of overlapping removers, re-entrant callbacks",
+                text="model_checking: callback ledger events of the real cache under overlapping DeleteExpired/Delete/GetAndDelete/Set/Compute, callback swaps and re-entrant callbacks are matched by TLC against queued evictions of the linearizable machine; sequential traces check fired-iff-removed against Count deltas; the exhaustive TTLCache model checks the ledger clause on the code-shaped model.",
+                design_ref="5 C06", note=CONC_NOTE),
+    "C07": dict(technique="MapLin/CacheLin Range contract (per-key candidate sets since traversal start, at most once, completeness for stable keys) on scheduler histories with mutating visitors; sequential exact-visit clause (aspect vis)",
+                text="model_checking: visit events of Range/Items on all four containers under concurrent stores, deletes, grow, Clear and mutating/stopping visitors are checked by TLC against the traversal contract; sequentially Range/Items must equal the visible set exactly.",
+                design_ref="5 C07", note=CONC_NOTE),
+    "C08": dict(technique="MapLin/CacheLin Quiesce clause (Size = |abstract map| = Range visits; Count = physical entries via access file) after every concurrent run; sequential Count bounds/equalities (aspect count)",
+                text="model_checking: after every scheduler run of the map and cache families a quiescent observation (Size/Count, Range visit count, physical entries) must equal the abstract content TLC derives from the linearization; sequential traces check Count after every call.",
+                design_ref="5 C08", note=CONC_NOTE),
+    "C13": dict(technique="scheduler-observed deadlock / fair-budget exhaustion on all families plus waiter/early-return/re-entrancy families; histories also validated by MapLin/CacheLin",
+                text="model_checking: every schedule explored (dfs preemption-bounded, PCT) must end with all threads returned; a run in which some thread is unfinished and none is enabled, or the fair step budget is exhausted, is a violation with a replayable schedule. Families force waiters to arrive around a resize, revisit a bucket after every early return and call back into the container from visitors and evicted callbacks.",
+                design_ref="5 C13", note=CONC_NOTE),
+    "C16": dict(technique="solo strategy: writer parked before each of its synchronisation operations, reader runs alone within 200 own steps; resulting history validated by MapLin/CacheLin with the writer's call still open",
+                text="model_checking: for every writer kind x reader kind (same key, bucket mate, unrelated, absent) on the four containers, the writer is stopped after each possible number of own steps (exhaustive over its yield points) and the reader must complete alone; TLC checks the value returned is a linearizable one.",
+                design_ref="5 C16", note=CONC_NOTE),
+    "C11": dict(technique="TLA+ MapSem/CacheSem as reference; trace validation of real runs under presize hints, one-chain layout pins, bulk threshold crossings, fresh processes; pairwise identical observations across configurations",
+                text="model_checking: every observation of Map/MapOf/Cache/CacheOf runs under hints {-1,0,1,96,97,1000,(100000)}, pinned layouts (slot empty / chain full / new bucket) and bulk inserts/deletes crossing all grow and shrink thresholds is validated by TLC against the plain-map semantics; the same programs in fresh processes (different hash key), under another hint and unpinned must give identical traces.",
+                design_ref="5 C11"),
+})
+
 NOT_YET = "check not built yet (work in progress; see DESIGN.md section 9)"
 
 
